@@ -64,6 +64,9 @@ pub fn redraw_plan(base: &Plan, rng: &mut Rng) -> Plan {
     for v in p.lua_busy.values_mut() {
         *v = rng.below(30) as u32;
     }
+    for v in p.lua_load_yields.values_mut() {
+        *v = rng.below(6) as u32;
+    }
     for t in p.ai_timing.values_mut() {
         *t = AiTiming {
             latency_ms: *rng.pick(&[0u64, 1, 5, 50, 500, 5_000, 60_000]) + rng.below(5) as u64,
@@ -193,8 +196,15 @@ fn malformed_block(g: &mut Gen, kind: &str) -> (BlockSpec, &'static str) {
     let mut b = BlockSpec::default();
     let name = g.fresh_name();
     b.attrs.push(("name".into(), name));
-    let words = |b: &mut BlockSpec| {
-        b.lines = vec!["alpha".into(), "beta".into(), "gamma".into()];
+    // how much (sorted, unique, lower-case) content the block gets: malformed rules must fail
+    // closed on empty and single-entry blocks as well ("with content" = at least one line)
+    let n_any = *g.rng.pick(&[0usize, 1, 1, 2, 3, 4]);
+    let n_some = *g.rng.pick(&[1usize, 1, 2, 3, 4]);
+    let needs_content = kind.starts_with("regex-");
+    let pool = ["alpha", "beta", "delta", "gamma"];
+    let take = if needs_content { n_some } else { n_any };
+    let words = move |b: &mut BlockSpec| {
+        b.lines = pool[..take].iter().map(|s| s.to_string()).collect();
     };
     let pick_invalid = |g: &mut Gen| g.rng.pick(model::INVALID_PATTERNS).to_string();
     let carrier: &'static str = match kind {
@@ -842,6 +852,10 @@ fn c18(seed: u64, thorough: bool) -> Scenario {
             let kind = *g.rng.pick(ScriptKind::FAULTS);
             let sp = format!("lua/f{}.lua", g.world.scripts.len());
             g.world.scripts.push(ScriptSpec { path: sp.clone(), kind });
+            if g.rng.chance(1, 2) {
+                let n = g.rng.range(1, 6) as u32;
+                g.plan.lua_load_yields.insert(sp.clone(), n);
+            }
             let mut blocks = &mut g.world.files[fi].blocks;
             let mut cur: Option<&mut BlockSpec> = None;
             for (d, &i) in path.iter().enumerate() {
